@@ -68,11 +68,30 @@ PLANS = {
     'exp': lambda: [['', '-', '+'], ['1', '0', '12', '1_'], ['.', ''], ['', '5', '0', '_'], ['e', 'E', ''], ['+', '-', ''],
                     ['0', '5', '17', '308', '309', '324', '400', '99999999999']],
 }
-TIERS = {'quick': ['num5', 'wide3', 'kw2', 'sexa5', 'sexat', 'date10', 'ts', 'lf', 'exp'],
-         'thorough': ['num6', 'num5a', 'wide4', 'kw3', 'sexa6', 'sexat', 'date10w', 'tsfull', 'lf', 'exp'],
+# Look-alikes: representatives of what a Unicode-aware predicate (\\d, \\s, str.isdigit, re.IGNORECASE, str.lower) would
+# put into the classes digit / blank / keyword letter.  H and L know ASCII only: every text with one of them is a str.
+U2, UF2, UD2, U0, UF0, U1, U5 = '\u0662', '\uff12', '\u0968', '\u0660', '\uff10', '\u0967', '\u0665'
+NBSP, IDSP, EMSP = '\u00a0', '\u3000', '\u2003'
+PLANS.update({
+    'uni_num': lambda: free(['1', '0', U2, UF2, UD2, '.', ':', '-', '_', NBSP], 4),
+    'uni_num3': lambda: free(['1', '0', U2, UF2, '.', ':', '-', NBSP], 3),
+    'uni_ts': lambda: [['2'], ['0', U0], ['0', UF2], ['1'], ['-'], ['0', UF0], ['1', U1], ['-'], ['1'], ['5', U5],
+                       ['', ' ', NBSP, IDSP, 'T'], ['1'], ['2', U2], [':'], ['3'], ['0', UF0], [':'], ['0'], ['0', U0],
+                       ['', 'Z', '.' + U5, '+' + U0 + '1', EMSP + 'Z']],
+    'uni_kw': lambda: free(['ye\u017f', 'YE\u017f', 'fal\u017fe', '\uff54rue', '\uff54\uff52\uff55\uff45', 'nu\u029fl', '\u0274ull',
+                            '.\u0131nf', '.\uff49nf', '.\u026anf', '\uff4fn', '\u043en', '\u041eff', 'n\u043e', '\uff5e',
+                            '\uff1c\uff1c', '\uff1d', '\u212a', 'O\u212a', '-', '.', '1', 'n', NBSP], 2),
+})
+TIERS = {'quick': ['num5', 'wide3', 'kw2', 'sexa5', 'sexat', 'date10', 'ts', 'lf', 'exp', 'uni_num3', 'uni_ts', 'uni_kw'],
+         'thorough': ['num6', 'num5a', 'wide4', 'kw3', 'sexa6', 'sexat', 'date10w', 'tsfull', 'lf', 'exp', 'uni_num', 'uni_ts', 'uni_kw'],
          'smoke': ['kw2', 'lf', 'exp']}
 
 TAGP = 'tag:yaml.org,2002:'
+# pairs of texts for the position / context streams (spec/MC_Contexts.tla): one typed text with another
+CTX_PAIRS = [('1', 'yes'), ('null', '1.5'), ('2001-01-01', 'x'), ('1:30', '0x10'), ('~', 'no'), ('.inf', '-0'),
+             ('1_0', '0o7'), ('2001-01-01 00:00:00', '=')]
+CTX_PAIRS_MORE = [('true', 'True'), ('0b1', '0_'), ('.nan', '.NaN'), ('1e+3', '1.e+3'), ('<<', '1'), ('Null', 'off'),
+                  ('190:20:30.15', '1__0'), ('2001-1-1T1:00:00Z', '2001-13-01'), ('0x_', '0')]
 
 
 # ------------------------------------------------------------------------------------------------ values <-> digests
@@ -305,6 +324,21 @@ def q_literal(t):
     return '|-\n  ' + t
 
 
+def judge_plain(hcls, hval, tag, oc, val, text):
+    """one occurrence of an untagged plain scalar: node tag `tag`, construction outcome (oc, val), against the
+    specification's class and value; None or (got, why)"""
+    if oc == 'exception':
+        return 'exception:' + val.split(':')[0], val
+    if tag != TAGP + hcls:
+        return tag.replace(TAGP, ''), 'composed with tag %s' % tag
+    if hval[0] in ('undefined', 'merge', 'value'):
+        return None                # no value defined: a YAML error or any value
+    if oc == 'error':
+        return 'error:' + val, 'YAML error for a text that has a value'
+    why = value_matches(hval, val, text)
+    return ('value', why) if why else None
+
+
 def classify_key(hcls, hval):
     return hcls if hval[0] != 'undefined' else hcls + '/no-value:' + hval[2]
 
@@ -321,7 +355,7 @@ def work(states, extra):
     items = []
     for st in states:
         res['n'] += 1
-        text = ''.join(st['text'])
+        text = unchars(st['text'])
         items.append((text, st['h']['cls'], st['h']['val'], st['dev']))
         d = st['dev'][0]
         res['devs'][d] = res['devs'].get(d, 0) + 1
@@ -373,20 +407,9 @@ def work(states, extra):
                 style, tag, (oc, val) = o
                 if len(res['traces']) < extra['sample'] and rnd.random() < 0.02:
                     res['traces'].append((text, True, oc, val if oc == 'ok' else None, L.__name__))
-                if oc == 'exception':
-                    bad('load', via, text, hcls, hval, 'exception:' + val.split(':')[0], val)
-                    continue
-                if tag != TAGP + hcls:
-                    bad('load', via, text, hcls, hval, tag.replace(TAGP, ''), 'composed with tag %s' % tag)
-                    continue
-                if hval[0] in ('undefined', 'merge', 'value'):
-                    continue               # no value defined: a YAML error or any value
-                if oc == 'error':
-                    bad('load', via, text, hcls, hval, 'error:' + val, 'YAML error for a text that has a value')
-                    continue
-                why = value_matches(hval, val, text)
-                if why:
-                    bad('load', via, text, hcls, hval, 'value', why)
+                j = judge_plain(hcls, hval, tag, oc, val, text)
+                if j:
+                    bad('load', via, text, hcls, hval, j[0], j[1])
         for name, render, ok in (('single', q_single, lambda t: '\n' not in t),
                                  ('double', q_double, lambda t: True),
                                  ('literal', q_literal, lambda t: t and t[0] not in ' \t' and '\n' not in t)):
@@ -405,12 +428,13 @@ def work(states, extra):
                             '%s scalar gives %s %r' % (name, tag, val))
 
     # ---- 3. dump every text as a str: whatever looks like another type must not come out plain
-    for D in dumpers:
-        for i in range(0, len(items), BATCH):
-            grp = items[i:i + BATCH]
+    nonascii = [it for it in items if not it[0].isascii()]
+    for D, opts, pool in [(D, o, p) for D in dumpers for o, p in (({}, items), ({'allow_unicode': True}, nonascii))]:
+        for i in range(0, len(pool), BATCH):
+            grp = pool[i:i + BATCH]
             texts = [g[0] for g in grp]
             try:
-                out = yaml.dump(texts, Dumper=D)
+                out = yaml.dump(texts, Dumper=D, **opts)
                 evs = [e for e in yaml.parse(out) if isinstance(e, yaml.ScalarEvent)]
                 back = yaml.load(out, Loader=yaml.CSafeLoader if D.__name__.startswith('C') else yaml.SafeLoader)
             except Exception as e:
@@ -438,7 +462,12 @@ def work(states, extra):
 
 # ------------------------------------------------------------------------------------- code -> spec: observations for TLC
 def chars(s):
-    return list(s)
+    """text -> sequence of characters as the specification sees them: ASCII as is, the rest as atoms 'uXXXX'"""
+    return [c if ord(c) < 128 else 'u%04X' % ord(c) for c in s]
+
+
+def unchars(seq):
+    return ''.join(chr(int(a[1:], 16)) if len(a) > 1 else a for a in seq)
 
 
 def gen_values(rnd, tier):
@@ -684,6 +713,199 @@ def observe_loads(yaml, texts, loaders):
     return obs
 
 
+# ------------------------------------------------------------------------- positions and contexts (spec/MC_Contexts.tla)
+FORM = {'plain': lambda s: s, 'single': q_single, 'double': q_double}
+
+
+def print_stream(texts, flow, occs):
+    """the YAML stream of one MC_Contexts state.  -> (stream text, [(document, element, role)] per occurrence).
+    Each document is a sequence; its elements are scalars (role item) or mappings that collect the key / val occurrences
+    linked with 'same'; fillers are v<i> (values of key occurrences) and k<i> (keys of val occurrences)."""
+    docs, where = [], []
+    for i, o in enumerate(occs):
+        text = texts[o['w'] - 1]
+        if o['link'] == 'doc' or not docs:
+            docs.append([])
+        elems = docs[-1]
+        ent = (i, o['role'], o['form'], text)
+        if o['role'] == 'item':
+            elems.append(('item', [ent]))
+        elif o['link'] == 'same' and elems and elems[-1][0] == 'map':
+            elems[-1][1].append(ent)
+        else:
+            elems.append(('map', [ent]))
+        where.append((len(docs) - 1, len(elems) - 1, o['role']))
+    out = []
+    for elems in docs:
+        if flow:
+            parts = []
+            for kind, ents in elems:
+                if kind == 'item':
+                    parts.append(FORM[ents[0][2]](ents[0][3]))
+                else:
+                    parts.append('{' + ', '.join('%s: v%d' % (FORM[f](s), i) if r == 'key' else 'k%d: %s' % (i, FORM[f](s))
+                                                 for i, r, f, s in ents) + '}')
+            out.append('--- [' + ', '.join(parts) + ']\n')
+        else:
+            lines = []
+            for kind, ents in elems:
+                first = True
+                for i, r, f, s in ents:
+                    lead = '- ' if first else '  '
+                    first = False
+                    if r == 'item':
+                        lines.append(lead + (FORM[f](s) if f != 'literal' else '|-\n    ' + s))
+                    elif r == 'key':
+                        lines.append(lead + ('%s: v%d' % (FORM[f](s), i) if f != 'literal' else '? |-\n      %s\n  : v%d' % (s, i)))
+                    else:
+                        lines.append(lead + 'k%d: ' % i + (FORM[f](s) if f != 'literal' else '|-\n      ' + s))
+            out.append('---\n' + '\n'.join(lines) + '\n')
+    return ''.join(out), where
+
+
+def occurrence_nodes(yaml, docs_nodes, where):
+    """the scalar node of every occurrence, by position; None when the stream does not have the printed shape"""
+    nodes = []
+    seen = {}
+    for d, e, role in where:
+        if d >= len(docs_nodes) or not isinstance(docs_nodes[d], yaml.SequenceNode) or e >= len(docs_nodes[d].value):
+            return None
+        el = docs_nodes[d].value[e]
+        if role == 'item':
+            n = el
+        else:
+            if not isinstance(el, yaml.MappingNode):
+                return None
+            j = seen.get((d, e), 0)
+            seen[(d, e)] = j + 1
+            if j >= len(el.value):
+                return None
+            n = el.value[j][0 if role == 'key' else 1]
+        if not isinstance(n, yaml.ScalarNode):
+            return None
+        nodes.append(n)
+    return nodes
+
+
+def ctx_work(states, extra):
+    yaml = use_repo()
+    loaders = [getattr(yaml, n) for n in extra['loaders']]
+    pool = extra['pool']
+    res = {'n': 0, 'docs': 0, 'occ': 0, 'bad': [], 'unprintable': 0, 'traces': [], 'sample': None}
+    rnd = random.Random(extra['seed'])
+    for st in states:
+        res['n'] += 1
+        occs = st['occ']
+        if not occs:
+            continue
+        texts = pool[st['pair'] - 1]
+        stream, where = print_stream(texts, st['flow'], occs)
+        res['docs'] += 1
+        if res['sample'] is None and len(occs) > 1 and rnd.random() < 0.05:
+            res['sample'] = {'stream': stream, 'expected': [e['cls'] for e in st['exp']]}
+        for L in loaders:
+            ld = L(stream)
+            try:
+                try:
+                    dn = []
+                    while ld.check_node():
+                        dn.append(ld.get_node())
+                except yaml.YAMLError:
+                    res['unprintable'] += 1
+                    continue
+                nodes = occurrence_nodes(yaml, dn, where)
+                if nodes is None or any(n.value != texts[o['w'] - 1] or (o['form'] == 'plain') != (n.style in (None, ''))
+                                        for n, o in zip(nodes, occs)):
+                    res['unprintable'] += 1
+                    continue
+                for i, (n, o, e) in enumerate(zip(nodes, occs, st['exp'])):
+                    text = texts[o['w'] - 1]
+                    oc, val = outcome_of(yaml, lambda: ld.construct_object(n, deep=True))
+                    res['occ'] += 1
+                    j = judge_plain(e['cls'], e['val'], n.tag, oc, val, text)
+                    if j:
+                        prev = sorted({(p['form'], p['role']) for p in occs[:i] if texts[p['w'] - 1] == text})
+                        res['bad'].append({'key': {'side': 'load-context', 'via': L.__name__, 'form': o['form'], 'role': o['role'],
+                                                   'expected': classify_key(e['cls'], e['val']), 'got': j[0],
+                                                   'same_text_before': [list(x) for x in prev]},
+                                           'stream': stream, 'occurrence': i, 'why': j[1]})
+                    if len(res['traces']) < extra['sample'] and rnd.random() < 0.002:
+                        res['traces'].append((text, o['form'] == 'plain', oc, val if oc == 'ok' else None, L.__name__))
+            finally:
+                ld.dispose()
+    return res
+
+
+def random_streams(yaml, rnd, pool, count, loaders):
+    """code -> spec: seeded random nested flow-style streams over a pool of texts, the same text repeated in several
+    forms and positions (keys, values, items, nested, across documents); one load observation per occurrence."""
+    obs, skipped = [], 0
+    forms = ['plain', 'plain', 'single', 'double']
+    for _ in range(count):
+        texts = rnd.sample(pool, min(len(pool), rnd.randint(1, 3)))
+        occs = []
+
+        def scalar():
+            s, f = rnd.choice(texts), rnd.choice(forms)
+            occs.append((s, f))
+            return FORM[f](s)
+
+        def node(depth):
+            c = rnd.random()
+            if depth >= 3 or c < 0.45:
+                return scalar()
+            if c < 0.7:
+                return '[' + ', '.join(node(depth + 1) for _ in range(rnd.randint(1, 3))) + ']'
+            parts = []
+            for _ in range(rnd.randint(1, 3)):
+                k = scalar() if rnd.random() < 0.7 else 'f%d' % rnd.randrange(100)
+                parts.append('%s: %s' % (k, node(depth + 1)))          # value occurrences are appended after their key
+            return '{' + ', '.join(parts) + '}'
+        stream = ''.join('--- ' + node(0) + '\n' for _ in range(rnd.randint(1, 3)))
+        for Ln in loaders:
+            ld = getattr(yaml, Ln)(stream)
+            try:
+                found = []
+
+                def walk(n):
+                    if isinstance(n, yaml.ScalarNode):
+                        found.append(n)
+                    elif isinstance(n, yaml.SequenceNode):
+                        for x in n.value:
+                            walk(x)
+                    else:
+                        for k, v in n.value:
+                            walk(k)
+                            walk(v)
+                try:
+                    while ld.check_node():
+                        walk(ld.get_node())
+                except yaml.YAMLError:
+                    skipped += 1
+                    continue
+                found = [n for n in found if not re.fullmatch(r'f\d+', n.value) or n.value in texts]
+                if len(found) != len(occs) or any(n.value != s or (f == 'plain') != (n.style in (None, ''))
+                                                  for n, (s, f) in zip(found, occs)):
+                    skipped += 1
+                    continue
+                for n, (s, f) in zip(found, occs):
+                    oc, val = outcome_of(yaml, lambda: ld.construct_object(n, deep=True))
+                    if oc == 'ok':
+                        ot, ov = digest(val, s.count(':') + 1)
+                        if ot == 'str' and val != s:
+                            ot = 'other:str-changed'
+                        # the node tag must agree with the constructed type as well (a str built under an int tag ...)
+                        if n.tag != TAGP + {'date': 'timestamp', 'datetime': 'timestamp'}.get(ot, ot):
+                            ot = 'other:tag-' + n.tag.replace(TAGP, '')
+                    else:
+                        ot, ov = oc, {}
+                    obs.append(({'kind': 'load', 'text': chars(s), 'plain': f == 'plain', 'tag': '', 'ot': ot, 'ov': ov, 'rb': True},
+                                 {'loader': Ln + '/stream', 'text': s, 'plain': f == 'plain', 'got': repr(val)[:80], 'stream': stream[:300]}))
+            finally:
+                ld.dispose()
+    return obs, skipped
+
+
 # ------------------------------------------------------------------------------------------------------------------ main
 def sample_records(sampled):
     """the (text, plain, outcome, value) samples taken during the replay, as trace records (cross-check of both judges)"""
@@ -745,6 +967,34 @@ def main(tier, replay=None):
         v.note('spec-drift C08: %s (%d texts)' % (k, c))
     replayed = sum(o['obs'] for o in out)
 
+    # ---- (b2) positions and contexts: every occurrence of a text in a stream is typed by its own text and form
+    pairs = CTX_PAIRS if quick else CTX_PAIRS + CTX_PAIRS_MORE
+    ctxp = os.path.join(BUILD, 'traces', 'C08_ctx_%s.json' % tier)
+    json.dump({'pool': [{'t': [chars(a), chars(b)], 'n': 2 if quick or i >= 1 else 3} for i, (a, b) in enumerate(pairs)]},
+              open(ctxp, 'w'))
+    rc = tlc.run('MC_Contexts', dump=True, coverage=False, tag='C08_ctx_' + tier, timeout=900 if quick else 3600,
+                 env={'C08_CFG': ctxp}, heap=os.environ.get('C08_HEAP', '8g'), workers=int(os.environ.get('C08_WORKERS', '16')))
+    if rc.violated:
+        print(rc.out[-3000:])
+        raise SystemExit('machinery failure: MC_Contexts violates %s' % rc.violated)
+    tlc.require_ok(rc, 'MC_Contexts/' + tier)
+    cout = mbt.pmap(ctx_work, rc.dump, {'loaders': loaders, 'pool': [list(p) for p in pairs], 'seed': SEED, 'sample': 20},
+                    chunks=128 if quick else 512)
+    if sum(o['n'] for o in cout) != rc.distinct:
+        raise SystemExit('machinery failure: replayed %d streams, TLC found %d states' % (sum(o['n'] for o in cout), rc.distinct))
+    os.remove(rc.dump)
+    ctx_occ = sum(o['occ'] for o in cout)
+    ctx_unprintable = sum(o['unprintable'] for o in cout)
+    if ctx_occ < rc.distinct:
+        raise SystemExit('machinery failure: only %d occurrences of %d streams could be judged' % (ctx_occ, rc.distinct))
+    for o in cout:
+        sampled += o['traces']
+        if o['sample'] and len(samples) < 12:
+            samples.append(o['sample'])
+        for b in o['bad']:
+            v.violation(b['key'], b)
+    replayed += ctx_occ
+
     # ---- (c) code -> spec, judged by TLC
     vals = gen_values(rnd, tier)
     obs = observe_dumps(yaml, vals, dumpers, {})
@@ -758,6 +1008,11 @@ def main(tier, replay=None):
     nmem = len(obs) - ndump
     obs += observe_loads(yaml, corpus, loaders)
     ncorp = len(obs) - ndump - nmem
+    spool = [s for s in members + corpus + KW if s and not _SUSPECT.search(s) and not re.search(r'[,\[\]{}#]|^[-?:]', s)]
+    spool += ['2\u0660\u0662\u0664-\u0660\u0661-\u0661\u0665', '\uff11\uff12', '1\u0662', 'ye\u017f', '1\u00a0']
+    sobs, sskipped = random_streams(yaml, rnd, spool, 150 if quick else 2000, loaders)
+    obs += sobs
+    nstream = len(sobs)
     obs += sample_records(sampled)
     verdicts, tstates = trace.judge('Trace_Types', [o[0] for o in obs], 'C08_types_' + tier)
     rejected = 0
@@ -772,10 +1027,13 @@ def main(tier, replay=None):
             key = {'side': 'load', 'via': info['loader'], 'plain': rec['plain'], 'why': why, 'got': rec['ot']}
         v.violation(key, {'info': info, 'why': why, 'emitted_or_loaded_text': ''.join(rec['text']), 'observed_type': rec['ot']})
 
-    v.cov = {'states': r.distinct + tstates, 'transitions': r.generated, 'enumerated_texts': r.distinct,
+    v.cov = {'states': r.distinct + rc.distinct + tstates, 'transitions': r.generated + rc.generated, 'enumerated_texts': r.distinct,
              'traces_validated_against_impl': replayed + len(obs), 'replayed_observations': replayed,
              'tlc_judged_observations': len(obs), 'tlc_judged_dump_observations': ndump,
              'tlc_judged_regexp_members': nmem, 'tlc_judged_corpus_scalars': ncorp, 'tlc_rejected': rejected,
+             'tlc_judged_stream_occurrences': nstream, 'random_streams_not_in_shape': sskipped,
+             'context_streams': rc.distinct, 'context_occurrences_judged': ctx_occ,
+             'context_stream_loads_not_in_shape': ctx_unprintable,
              'exhaustive': True, 'distinct_nontrivial': sum(o['nontrivial'] for o in out),
              'texts_loadable_as_plain_scalar': sum(o['plain'] for o in out),
              'rule': 'one TLC state per text of the plans; non-trivial = the repository gives the text a type other than str; '
@@ -783,7 +1041,7 @@ def main(tier, replay=None):
                      % (', '.join(loaders), ', '.join(dumpers)),
              'model_relation_counts': devs, 'plans': {nm: [len(s) for s in PLANS[nm]()] for nm in names},
              'generated_values': len(vals), 'samples': samples[:8],
-             'actions': {'Extend': r.generated - len(names)}}
+             'actions': {'Extend': r.generated - len(names), 'AddOccurrence': rc.generated - 2 * len(pairs)}}
     v.assumptions = ['texts are sequences over the plan alphabets (ASCII); characters outside them are covered only by the corpus scalars',
                      'a text counts as a plain scalar when the loader under test reads "- <text>" as one plain scalar equal to it',
                      'decimal floats must be correctly rounded (exact rational arithmetic); sexagesimal floats within one ulp per term',
